@@ -387,12 +387,6 @@ func (d *Datastore) lowlevelTransactionSet(ctx context.Context, transaction *typ
 func (d *Datastore) TransactionSet(ctx context.Context, transactionId string, transactionIntents []*types.TransactionIntent, replaceIntent *types.TransactionIntent, transactionTimeout time.Duration, dryRun bool) (*sdcpb.TransactionSetResponse, error) {
 	var err error
 
-	// try locking the datastore if it is locked return the specific ErrDatastoreLocked error.
-	if !d.dmutex.TryLock() {
-		return nil, ErrDatastoreLocked
-	}
-	defer d.dmutex.Unlock()
-
 	log.Infof("Transaction: %s - start", transactionId)
 
 	// create a new Transaction with the given transaction id
@@ -424,6 +418,12 @@ func (d *Datastore) TransactionSet(ctx context.Context, transactionId string, tr
 			break
 		}
 	}
+
+	// lock the datastore while the transaction is processed. The lock is not held while waiting for the
+	// registration above, otherwise the ongoing transaction the registration waits for could not be
+	// confirmed or canceled.
+	d.dmutex.Lock()
+	defer d.dmutex.Unlock()
 
 	// add the replaceIntent to the transaction
 	transaction.SetReplace(replaceIntent)
